@@ -57,7 +57,7 @@ func main() {
 	var servers []*srvT
 	var names []string
 	for n := range registry.Probes {
-		if strings.HasPrefix(n, "core_") || strings.HasPrefix(n, "rnd_") {
+		if strings.HasPrefix(n, "core_") || strings.HasPrefix(n, "rnd_") || strings.HasPrefix(n, "bound") {
 			names = append(names, n)
 		}
 	}
